@@ -33,12 +33,15 @@ const (
 	BPanicIsTrue
 	BPanicNil
 	BPanicWrappedFailNowText
+	BPanicSlice
+	BPanicSliceError
+	BPanicMap
 	NumBehaviours
 )
 
 var BehaviourNames = []string{"pass", "Fail", "FailNow", "Error", "Errorf", "Fatal", "Fatalf", "assert", "require",
 	"panic(error)", "panic(string)", "panic(int)", "panic(struct)", "nil-map-write", "index-out-of-range", "nil-deref",
-	"panic(error-with-permissive-Is)", "panic(nil)", "panic(error-named-FailNow)"}
+	"panic(error-with-permissive-Is)", "panic(nil)", "panic(error-named-FailNow)", "panic([]int)", "panic(slice-typed error)", "panic(map)"}
 
 // Stops reports whether the behaviour ends the function at that point.
 func Stops(kind int) bool {
@@ -56,6 +59,11 @@ type permissiveErr struct{}
 
 func (permissiveErr) Error() string { return "permissive error" }
 func (permissiveErr) Is(error) bool { return true }
+
+// sliceErr is an error of a non-comparable dynamic type (like validator.ValidationErrors).
+type sliceErr []string
+
+func (e sliceErr) Error() string { return "slice error" }
 
 type someStruct struct {
 	A int
@@ -107,6 +115,12 @@ func Behave(t *f1testing.T, kind int) {
 		panic(e)
 	case BPanicWrappedFailNowText:
 		panic(errors.New("FailNow"))
+	case BPanicSlice:
+		panic([]int{1, 2, 3})
+	case BPanicSliceError:
+		panic(sliceErr{"a", "b"})
+	case BPanicMap:
+		panic(map[string]int{"a": 1})
 	default:
 		panic(fmt.Sprintf("harness: unknown behaviour %d", kind))
 	}
